@@ -488,6 +488,8 @@ def _run_one(o, mod, dem, ll, wd, tier, seed, R, log, irsym):
     mismatches = []
     for vec in vecs:
         nat = run_native(exe, vec, wd, "val")
+        if nat["rc"] == 4 and "MISSING-INPUT" in (str(nat.get("harness_error", "")) + nat.get("stderr", "")):
+            continue        # the vector lacks an input that only some paths draw (not known from the explored paths): not usable
         native_crashed = nat["rc"] < 0 or nat["rc"] in (139, 134, 136)
         if nat.get("harness_error") or (nat["rc"] not in (0,) and not nat["assume_false"] and not native_crashed):
             mismatches.append({"inputs": vec, "why": "native run failed rc=%s %s %s" % (nat["rc"], nat.get("harness_error", ""), nat["stderr"][-300:])})
